@@ -225,12 +225,21 @@ def handleAnalysis : List String → Option String
         let c2 := cost { pth := pth', A := a', B := b', C := c' } rows'
         if c1 ≤ factor * c2 + slack then "le" else "gt"
       | _, _, _, _, _, _, _, _, _, _, _, _ => "ERR parse")
-  | ["fssreported", raw, pmin, pmax, nbs, rep] =>
-    -- fss_params[0] as reported vs the optimiser's raw value (in-place overwrite by get_fit_params)
-    some (match parseRat? pmin, parseRat? pmax, nbs.toNat? with
-      | some pmin, some pmax, some nbs =>
-        chkRat "fss_params[0]" (parseRat? rep) ((parseRat? raw).map fun raw => reportedPth raw pmin pmax nbs)
-      | _, _, _ => "ERR parse")
+  | ["fssreported", raw, bounds, rep] =>
+    -- fss_params[0] as reported vs the optimiser's raw value (in-place overwrite by get_fit_params);
+    -- bounds = lo,hi;lo,hi;... of the bootstrap resamples in order
+    some (
+      let bs : Option (List (Rat × Rat)) :=
+        if bounds == "-" then some [] else
+        (bounds.splitOn ";").mapM fun t =>
+          match t.splitOn "," with
+          | [a, b] => match parseRat? a, parseRat? b with
+            | some a, some b => some (a, b)
+            | _, _ => none
+          | _ => none
+      match bs with
+      | some bs => chkRat "fss_params[0]" (parseRat? rep) (reportedPth (parseRat? raw) bs)
+      | none => "ERR parse")
   | ["fssrange", pl, pr, rows] =>
     -- truncation with the default limits keeps every row; prints kept count, min, max
     some (match parseRows? rows with
